@@ -118,6 +118,15 @@ CHECKS = {
                 "Uuid/[u8;16]/u128 conversions as big-endian identities. Random and time bits are opaque inputs.",
         "technique": "static analysis: abstract interpretation with per-bit provenance over MIR (all paths), sibling routing-kernel rule, quantifier-shape rule",
     },
+    "C21": {
+        "text": "For the combinator tree of all 13 command parsers (built from the HIR on every run, combine 4.6 commit semantics): no keyword that may follow an optional or repeated "
+                "part is accepted by that part's value leaf (G1), no repetition/option/choice turns a following keyword into a committed error (G2), every documented example "
+                "and every expansion of the documented syntax templates is accepted with keywords in keyword position (G3), every token sequence the Rust client can build "
+                "(all CFG paths of its cmd().arg() chains and ToRedisArgs impls, integers at the boundaries of their client-side type, caller strings as wildcards) is accepted (G4), "
+                "and the command and expected-version keyword tables agree across server, protocol and client (G5). The values carried in the parsed request are not decided.",
+        "note": NOTE + " Leaf acceptance tables (which strings each parser.rs leaf accepts) are frozen and guarded by a structural fingerprint; client loops are explored with 1-2 iterations.",
+        "technique": "static analysis: grammar extraction from HIR combinator trees, FIRST/FOLLOW keyword analysis with commit semantics, abstract parsing of documented and client-emitted forms (MIR path enumeration)",
+    },
     "C22": {
         "text": "Decides only that a well-formed or malformed request cannot kill the connection task from inside the handlers, encoders, Command::{try_from,handle} and "
                 "Conn::{run,handle_request}: every overflow / division / unwrap / index / explicit panic there is discharged by an interval, a guard or a frozen, reasoned "
